@@ -841,15 +841,19 @@ func (p *Forkable) processNewBlocks(longestChain []*Block) (err error) {
 
 func (p *Forkable) processInitialInclusiveIrreversibleBlock(blk *pbbstream.Block, obj interface{}, sendAsNew bool) error {
 	// Normally extracted from ForkDB, we create it here:
+	fb := &ForkableBlock{
+		Block: blk,
+		Obj:   obj,
+	}
+	// keep a reference to the initial irreversible block in the ForkDB, so that lookups by hash or number
+	// and the complete segment down from the head include it (no-op when the block is already linked)
+	p.forkDB.AddLink(blk.AsRef(), blk.ParentId, fb)
+
 	singleBlock := &Block{
 		BlockID:  blk.Id,
 		BlockNum: blk.Number,
 		// Other fields not needed by `processNewBlocks`
-		Object: &ForkableBlock{
-			// WARN: this ForkDB doesn't have a reference to the current block, hopefully downstream doesn't need that (!)
-			Block: blk,
-			Obj:   obj,
-		},
+		Object: fb,
 	}
 
 	tinyChain := []*Block{singleBlock}
